@@ -165,7 +165,12 @@ fn lifted_signatures(p: &axcut::syntax::Prog) -> Result<u64, String> {
         let mut fv = std::collections::BTreeSet::new();
         free_vars_ax(&d.body, &mut Vec::new(), &mut fv);
         let params: std::collections::BTreeSet<usize> = d.context.bindings.iter().map(|b| b.var.id).collect();
-        if fv != params {
+        // Every free variable of the lifted body must be a parameter. (The converse is not
+        // demanded of the *shrunk* body: the lifted Core statement may mention a variable that
+        // shrinking eliminates, e.g. `<n | mu~x.s>` with x unused in s; a parameter that is no
+        // free variable of the Core statement would be an unbound argument at the call site, which
+        // the scoping check reports.)
+        if !fv.is_subset(&params) {
             return Err(format!(
                 "lifted definition {}_{}: parameters {:?} but the body's free variables are {:?}",
                 d.name.name, d.name.id, params, fv
@@ -402,12 +407,23 @@ pub fn nl_worker(ctx: &WorkerCtx, rep: &mut Report) {
             check_nl(&case, rep);
         }
     });
+    crate::generate::axnl::enumerate_invoke(n_max + 1, |case| {
+        idx += 1;
+        if ctx.mine(idx) {
+            check_nl(&case, rep);
+        }
+    });
 }
 
 fn replay_nl(case: &serde_json::Value) -> Result<Option<String>, String> {
     let name = case["name"].as_str().ok_or("name")?.to_string();
     let mut found = None;
     crate::generate::axnl::enumerate(4, |c| {
+        if found.is_none() && c.name == name {
+            found = Some(c);
+        }
+    });
+    crate::generate::axnl::enumerate_invoke(5, |c| {
         if found.is_none() && c.name == name {
             found = Some(c);
         }
